@@ -5,8 +5,11 @@
 // during (at every hook call and at the engine.published yield point) and after
 // the update, and records
 //
-//	handler status, sorted (path, content) tree before/after, and the sequence
-//	of distinct engine views the probe transactions saw.
+//	handler status, sorted (path, content) tree before/after, the sequence
+//	of distinct engine views the probe transactions saw, and for the probe
+//	transactions that have a request and a response phase (span.go) which
+//	configuration served each phase and whether an engine was published
+//	between the two.
 //
 // The monitor (monitor.go) restates the property over these observations; the
 // Gallina model (theories/C08/Model.v) is evaluated on the same cases by coqc.
@@ -25,6 +28,7 @@ import (
 	"net/http/httptest"
 	"os"
 	"path/filepath"
+	"runtime/debug"
 	"sort"
 	"strings"
 
@@ -85,6 +89,7 @@ type ViewEnt struct {
 type Arrival struct {
 	At   string    `json:"at"`
 	View []ViewEnt `json:"view"`
+	Pubs int       `json:"engine_publications_so_far"` // engine.published events up to and including this point
 }
 
 // Landing: where a payload file name of a directory field resolves to
@@ -122,6 +127,57 @@ type Case struct {
 	Landings   []Landing   `json:"landings"`
 	TreeBefore []Ent       `json:"tree_before_observed"` // the walk of box right before the request
 	Views      [][]ViewEnt `json:"distinct_views_in_order"`
+	Spans      []Span      `json:"two_phase_transactions"` // distinct (switch between the phases, request view, response view)
+	SpanCount  int         `json:"two_phase_transactions_run"`
+	PubsTotal  int         `json:"engine_publications"`
+	Tree       []TreePair  `json:"tree"` // which of the paths of this case lie below which (computed from the absolute paths)
+}
+
+type PathRef struct {
+	Area int    `json:"area"`
+	Rel  string `json:"rel"`
+}
+
+// TreePair: Below lies below Dir taken as a directory (Dir is a proper prefix of Below).
+type TreePair struct {
+	Dir   PathRef `json:"dir"`
+	Below PathRef `json:"below"`
+}
+
+// treeOf lists the prefix relation among all the paths a case mentions: the
+// files before and after, the payload targets and the paths of the hook calls.
+func (s *sut) treeOf(k *Case) []TreePair {
+	seen := map[PathRef]bool{}
+	var all []PathRef
+	add := func(a int, r string) {
+		p := PathRef{a, r}
+		if !seen[p] {
+			seen[p] = true
+			all = append(all, p)
+		}
+	}
+	for _, e := range k.Before {
+		add(e.Area, e.Rel)
+	}
+	for _, e := range k.Payload {
+		add(e.TArea, e.TRel)
+	}
+	for _, e := range k.After {
+		add(e.Area, e.Rel)
+	}
+	for _, e := range k.HookSeq {
+		add(e.Area, e.Rel)
+	}
+	var out []TreePair
+	for _, d := range all {
+		da := s.abs(d.Area, d.Rel)
+		for _, b := range all {
+			if d != b && strings.HasPrefix(s.abs(b.Area, b.Rel), da+string(filepath.Separator)) {
+				out = append(out, TreePair{d, b})
+			}
+		}
+	}
+	return out
 }
 
 // ---------------------------------------------------------------- interning
@@ -174,6 +230,12 @@ type runState struct {
 	k       *Case
 	hookIdx int
 	names   []string // flow files probed
+	pubs    int      // engine.published events so far
+	arrIdx  int      // arrival points so far
+	open    []*openSpan
+	pool    []*openSpan // transactions begun at "before", one of them ended after each publication and at the end
+	poolAt  int         // publications when a pool transaction was last ended
+	longAt  int         // publications when a transaction to be ended at "after" was last begun; -1: never
 }
 
 func (s *sut) classify(abs string) (int, string) {
@@ -332,7 +394,12 @@ func (s *sut) probe(names []string) []ViewEnt {
 
 func (s *sut) arrive(at string) {
 	r := s.run
-	r.k.Arrivals = append(r.k.Arrivals, Arrival{at, s.probe(r.names)})
+	if at == "engine.published" {
+		r.pubs++
+	}
+	r.k.Arrivals = append(r.k.Arrivals, Arrival{at, s.probe(r.names), r.pubs})
+	s.spanStep(at, at == "after")
+	r.arrIdx++
 }
 
 func (s *sut) onFault(point, arg string) error {
@@ -407,6 +474,7 @@ func (s *sut) body(k *Case) []byte {
 // exec runs one update on the implementation and fills the observed fields.
 func (s *sut) exec(k *Case) {
 	k.Status, k.After, k.HookSeq, k.Arrivals, k.FaultFired, k.Views, k.RollbackAt = 0, nil, nil, nil, false, nil, -1
+	k.Spans, k.SpanCount, k.PubsTotal = nil, 0, 0
 	k.Landings, k.TreeBefore = nil, nil
 	s.resetTo(k.Before)
 	k.TreeBefore = s.tree()
@@ -429,7 +497,7 @@ func (s *sut) exec(k *Case) {
 			names[e.TRel] = true
 		}
 	}
-	r := &runState{k: k}
+	r := &runState{k: k, longAt: -1}
 	for n := range names {
 		r.names = append(r.names, n)
 	}
@@ -440,8 +508,10 @@ func (s *sut) exec(k *Case) {
 	s.mux.ServeHTTP(rec, httptest.NewRequest(k.Method, "/"+k.Handler, bytes.NewReader(s.body(k))))
 	s.arrive("after")
 	s.run = nil
+	k.PubsTotal = r.pubs
 	k.Status = rec.Code
 	k.After = s.tree()
+	k.Tree = s.treeOf(k)
 	for i := range k.Landings {
 		k.Landings[i].ShaAfter = shaAt(filepath.Join(s.L.box, k.Landings[i].Path))
 	}
@@ -561,6 +631,12 @@ func coq(k *Case) string {
 		fault,
 		c.Tuple(hookPaths(saveHooks), hookPaths(k.HookSeq)),
 		c.Tuple(c.B(k.Status == 200), coqDisk(k.After), c.MapList(k.Views, coqView)),
+		c.MapList(k.Spans, func(sp Span) string {
+			return c.Tuple(c.B(sp.Pubs > 0), coqView(sp.Req), coqView(sp.Resp))
+		}),
+		c.MapList(k.Tree, func(t TreePair) string {
+			return c.Tuple(coqPath(t.Dir.Area, t.Dir.Rel), coqPath(t.Below.Area, t.Below.Rel))
+		}),
 	)
 }
 
@@ -570,17 +646,22 @@ func main() {
 	if os.Getenv(childEnv) == "" {
 		reexecWithEnv()
 	}
+	debug.SetGCPercent(400) // many short-lived engines: trade memory for time
 	o := c.NewOut("C08")
 	o.DeclareSuite("update", "From Verif Require Import C08.Model.", "case", "run_case")
 	o.Rule("generated (disk, payload, handler) triples: payloads add / change / re-send / (apply_flows) remove files of the " +
 		"five configuration places, with undecodable base64, undecodable JSON, wrong HTTP method, contents failing " +
 		"validation, contents failing the metrics reload, file names leaving their directory (../x, ../../outside/x, a/../../x, onto a " +
 		"sibling directory, onto the gateway file, onto an existing outside file, the directory itself), odd names that stay " +
-		"inside (sub/x, ./x, a/../x, /abs/x, ..x); each triple is " +
+		"inside (sub/x, ./x, a/../x, /abs/x, ..x), names that make a file of a directory or a directory of a file (a name that is a " +
+		"sub-directory of the disk, a name below an existing file, one and two levels deep, names of one payload that are " +
+		"prefixes of each other); each triple is " +
 		"run without fault and then once per verifhook.Fault call index of that run (fs.store, fs.remove, engine.init; for a " +
 		"bad payload the calls of the roll-back are included), probes at every hook call, at the engine.published yield, " +
-		"before and after; distinct = distinct (inputs, observables); non-trivial = the update failed after at least one " +
-		"fs.store / fs.remove call had been made, or succeeded and changed the engine view")
+		"before and after; at each of these points single-phase probe transactions (answered early by the flow) and two-phase " +
+		"probe transactions (let through: lunar-on-request at one point, lunar-on-response with the same id at a later one -- " +
+		"the next point, after the next publication, at the end); distinct = distinct (inputs, observables); non-trivial = the " +
+		"update failed after at least one fs.store / fs.remove call had been made, or succeeded and changed the engine view")
 	s := newSut()
 	s.calibrate(o)
 	var k Case
